@@ -74,19 +74,19 @@ pub fn fixed_fraction_chunk(st: &mut FSt, rates: &[f32], index: u64) {
         let replay = || json!({"part": "fixed-fraction", "rate": rate_json(rate), "draw": format!("{k}/2^24"), "calls_reaching_inner_format": emitted,
             "rate_passed_on_bits": format!("0x{:08X}", rec.last_rate_bits.get())});
         if res.is_err() {
-            st.v.add("fixed-fraction:error-from-infallible-inner-format", "format returned Err although the inner format cannot fail", replay());
+            vadd!(st.v, "fixed-fraction:error-from-infallible-inner-format", "format returned Err although the inner format cannot fail", replay());
         }
         if emitted != expect as u64 {
             let rel = if k as f64 == threshold { "draw == rate" } else if (k as f64) < threshold { "draw < rate" } else { "draw > rate" };
-            st.v.add(format!("fixed-fraction:emit-decision:{}", rel.replace(' ', "")), format!("rate {rate:e}, draw {k}/2^24 ({rel}): entry reached the inner format {emitted} times, expected {}", expect as u64), replay());
+            vadd!(st.v, format!("fixed-fraction:emit-decision:{}", rel.replace(' ', "")), format!("rate {rate:e}, draw {k}/2^24 ({rel}): entry reached the inner format {emitted} times, expected {}", expect as u64), replay());
         }
         if emitted > 0 {
             st.emitted += 1;
             if rec.last_rate_bits.get() != rate.to_bits() {
-                st.v.add("fixed-fraction:rate-passed-on", format!("configured rate {rate:e} but the inner format was handed {:e}", f32::from_bits(rec.last_rate_bits.get())), replay());
+                vadd!(st.v, "fixed-fraction:rate-passed-on", format!("configured rate {rate:e} but the inner format was handed {:e}", f32::from_bits(rec.last_rate_bits.get())), replay());
             }
             if rec.last_id.get() != k {
-                st.v.add("fixed-fraction:entry-passed-on", "the inner format saw a different entry than the one formatted", replay());
+                vadd!(st.v, "fixed-fraction:entry-passed-on", "the inner format saw a different entry than the one formatted", replay());
             }
         } else {
             st.dropped += 1;
@@ -175,13 +175,13 @@ pub fn emf_public_path(st: &mut ESt) {
                     "split": split.map(|(n, a, c)| json!({"n": n.to_string(), "alpha": format!("{a:e}"), "draws_selecting_n": c.to_string()})),
                     "expected_weight": expect_w.to_string(), "output": text, "detail": extra});
                 if let Err(e) = res {
-                    st.v.add("emf-sampled-format-failed", format!("format_with_sample_rate({rate:e}) failed: {e}"), replay(json!(null)));
+                    vadd!(st.v, "emf-sampled-format-failed", format!("format_with_sample_rate({rate:e}) failed: {e}"), replay(json!(null)));
                     continue;
                 }
                 let recs = match parse_output(&out) {
                     Ok(r) if r.len() == 1 => r,
-                    Ok(r) => { st.v.add("emf-sampled-format-output", format!("{} records for one entry", r.len()), replay(json!(null))); continue }
-                    Err(msg) => { st.v.add("emf-sampled-format-output", format!("unparseable output: {msg}"), replay(json!(null))); continue }
+                    Ok(r) => { vadd!(st.v, "emf-sampled-format-output", format!("{} records for one entry", r.len()), replay(json!(null))); continue }
+                    Err(msg) => { vadd!(st.v, "emf-sampled-format-output", format!("unparseable output: {msg}"), replay(json!(null))); continue }
                 };
                 let mut counts: Vec<u64> = Vec::new();
                 let mut bad = None;
@@ -197,7 +197,7 @@ pub fn emf_public_path(st: &mut ESt) {
                     bad = Some(format!("{} counts, expected {}", counts.len(), OCCURRENCES.len()));
                 }
                 if let Some(msg) = bad {
-                    st.v.add("emf-sampled-format-output", msg, replay(json!(null)));
+                    vadd!(st.v, "emf-sampled-format-output", msg, replay(json!(null)));
                     continue;
                 }
                 // the weight is what a single occurrence is counted as
@@ -205,13 +205,13 @@ pub fn emf_public_path(st: &mut ESt) {
                 st.weights_seen.insert(w);
                 if w != expect_w {
                     let class = if saturating { "emf-weight-choice:not-saturating" } else { "emf-weight-choice" };
-                    st.v.add(class, format!("rate {rate:e}, draw {k}/2^53: single observations are counted {w} times, expected {expect_w}"), replay(json!({"counts": counts.iter().map(|c| c.to_string()).collect::<Vec<_>>()})));
+                    vadd!(st.v, class, format!("rate {rate:e}, draw {k}/2^53: single observations are counted {w} times, expected {expect_w}"), replay(json!({"counts": counts.iter().map(|c| c.to_string()).collect::<Vec<_>>()})));
                 }
                 // independent of the accessor: floor/ceil by exact arithmetic when 1/rate < 2^53
                 if !saturating {
                     let inv = Inverse::of(rate);
                     if inv.below_2_53() && w as u128 != inv.floor() && w as u128 != inv.ceil() {
-                        st.v.add("emf-weight-not-floor-or-ceil", format!("rate {rate:e}: count {w} in the output, 1/rate = {}", inv.describe()), replay(json!(null)));
+                        vadd!(st.v, "emf-weight-not-floor-or-ceil", format!("rate {rate:e}: count {w} in the output, 1/rate = {}", inv.describe()), replay(json!(null)));
                     }
                 }
                 for (c, occ) in counts.iter().zip(OCCURRENCES) {
@@ -219,12 +219,12 @@ pub fn emf_public_path(st: &mut ESt) {
                     let exact = occ as u128 * w as u128;
                     if exact <= u64::MAX as u128 {
                         if *c as u128 != exact {
-                            st.v.add("emf-counts-not-weighted", format!("rate {rate:e}: an observation with {occ} occurrences has count {c}, the record's weight is {w}"), replay(json!({"counts": counts.iter().map(|c| c.to_string()).collect::<Vec<_>>()})));
+                            vadd!(st.v, "emf-counts-not-weighted", format!("rate {rate:e}: an observation with {occ} occurrences has count {c}, the record's weight is {w}"), replay(json!({"counts": counts.iter().map(|c| c.to_string()).collect::<Vec<_>>()})));
                         }
                     } else {
                         st.saturated_products += 1;
                         if *c != u64::MAX {
-                            st.v.add("emf-counts-not-weighted:product-overflow", format!("rate {rate:e}: {occ} occurrences x weight {w} exceeds 64 bits; count is {c}, expected the largest 64-bit value"), replay(json!({"counts": counts.iter().map(|c| c.to_string()).collect::<Vec<_>>()})));
+                            vadd!(st.v, "emf-counts-not-weighted:product-overflow", format!("rate {rate:e}: {occ} occurrences x weight {w} exceeds 64 bits; count is {c}, expected the largest 64-bit value"), replay(json!({"counts": counts.iter().map(|c| c.to_string()).collect::<Vec<_>>()})));
                         }
                     }
                 }
